@@ -50,9 +50,10 @@ VARIABLES ski,          \* which kernel
           loc,          \* loc[t][a] = private accumulator a of thread t (two lanes)
           sh,           \* sh[a] = shared / master-level accumulator a
           out,          \* the output array: cell -> abstract value
+          touched,      \* shared locations accessed in the open region, with the parallel index that did it
           hist          \* claim order (history; exported as a schedule to replay)
 
-vars == <<ski, nt, cg, mp, active, ru, claimed, th, loc, sh, out, hist>>
+vars == <<ski, nt, cg, mp, active, ru, claimed, th, loc, sh, out, touched, hist>>
 
 (* ------------------------------------------------------------------ abstract arithmetic *)
 G      == -9                       \* garbage of an uninitialised buffer
@@ -138,8 +139,6 @@ SeqApply(st, o, cgv) ==
     [] OTHER -> st
 RECURSIVE SeqExec(_, _, _, _)
 SeqExec(ops, n, st, cgv) == IF n > Len(ops) THEN st ELSE SeqExec(ops, n + 1, SeqApply(st, ops[n], cgv), cgv)
-RefOut(sk, cgv) == SeqExec(Body(sk, 0, <<>>), 1, [acc |-> UndefAccs(sk), out |-> InitOut(sk)], cgv).out
-RefTab == [s \in 1..Len(Skeletons) |-> [c \in {"seq", "lanes"} |-> RefOut(Skeletons[s], c)]]
 
 (* ------------------------------------------------------------------ the state machine *)
 \* tables (constant level: evaluated once by TLC)
@@ -151,6 +150,20 @@ TBodies == [s \in 1..Len(Skeletons) |->
              ELSE [v \in Vecs(Skeletons[s].ext, ParDepths[s]) |-> Body(Skeletons[s], ParDepths[s], v)]]
 InBounds(sk, ops) == \A n \in 1..Len(ops) : ops[n].op \in {"store", "outadd"} => ops[n].cell \in Cells(sk)
 InBoundsTab == [s \in 1..Len(Skeletons) |-> InBounds(Skeletons[s], Body(Skeletons[s], 0, <<>>))]
+
+\* reference: the state of the sequential execution when the master is at position n of its program
+\* (a region stands for the whole parallel loop run in index order by one thread)
+SeqMaster(st, o, s, cgv) ==
+  IF o.op = "region"
+  THEN LET e == Skeletons[s].ext[ParDepths[s]] IN
+       SeqExec(FlatN([x \in 1..e |-> TBodies[s][Append(o.cell, x)]], e), 1, st, cgv)
+  ELSE SeqApply(st, o, cgv)
+RECURSIVE RefPrefix(_, _, _)
+RefPrefix(s, cgv, n) ==
+  IF n = 1 THEN [acc |-> UndefAccs(Skeletons[s]), out |-> InitOut(Skeletons[s])]
+  ELSE SeqMaster(RefPrefix(s, cgv, n - 1), MProgs[s][n - 1], s, cgv)
+RefAt == [s \in 1..Len(Skeletons) |-> [c \in {"seq", "lanes"} |->
+            [n \in 1..(Len(MProgs[s]) + 1) |-> RefPrefix(s, c, n)]]]
 
 SK == Skeletons[ski]
 P  == ParDepths[ski]
@@ -167,6 +180,7 @@ Init ==
   /\ loc = [t \in 1..MaxT |-> UndefAccs(Skeletons[ski])]
   /\ sh = UndefAccs(Skeletons[ski])
   /\ out = InitOut(Skeletons[ski])
+  /\ touched = {}
   /\ hist = <<>>
 
 \* the master executes one statement of the sequential part, or opens a region
@@ -175,14 +189,14 @@ MasterStep ==
   /\ LET o == MP[mp]
          Rd(a) == ReadAcc(sh, a, cg) IN
      IF o.op = "region"
-     THEN /\ active' = TRUE /\ ru' = o.cell /\ claimed' = {}
+     THEN /\ active' = TRUE /\ ru' = o.cell /\ claimed' = {} /\ touched' = {}
           /\ UNCHANGED <<mp, sh, out>>
      ELSE /\ mp' = mp + 1
           /\ sh' = IF o.op \in {"init", "add"} THEN ApplyAcc(sh, o, cg) ELSE sh
           /\ out' = CASE o.op = "store"  -> [out EXCEPT ![o.cell] = StoreVal(o, Rd)]
                       [] o.op = "outadd" -> [out EXCEPT ![o.cell] = Add(@, Leaf(o.t))]
                       [] OTHER -> out
-          /\ UNCHANGED <<active, ru, claimed>>
+          /\ UNCHANGED <<active, ru, claimed, touched>>
   /\ UNCHANGED <<ski, nt, cg, th, loc, hist>>
 
 \* an idle thread takes any index that nobody has taken
@@ -193,7 +207,7 @@ Claim(t) ==
        /\ th' = [th EXCEPT ![t] = [x |-> x, ip |-> 1]]
        /\ hist' = Append(hist, x)
   /\ loc' = [loc EXCEPT ![t] = UndefAccs(SK)]
-  /\ UNCHANGED <<ski, nt, cg, mp, active, ru, sh, out>>
+  /\ UNCHANGED <<ski, nt, cg, mp, active, ru, sh, out, touched>>
 
 \* private operations starting at ip (they touch nothing another thread can see)
 RECURSIVE RunPriv(_, _, _)
@@ -211,10 +225,14 @@ Step(t) ==
      IF r1.ip > Len(ops)
      THEN /\ th' = [th EXCEPT ![t] = Idle]
           /\ loc' = [loc EXCEPT ![t] = UndefAccs(SK)]
-          /\ UNCHANGED <<sh, out>>
+          /\ UNCHANGED <<sh, out, touched>>
      ELSE LET o == ops[r1.ip]
               Rd(a) == IF IsShared(a) THEN ReadAcc(sh, a, cg) ELSE ReadAcc(r1.l, a, cg)
-              r2 == RunPriv(ops, r1.ip + 1, r1.l) IN
+              r2 == RunPriv(ops, r1.ip + 1, r1.l)
+              \* locations of shared state this step reads or writes (an accumulator a is written as <<0, a>>)
+              locs == (IF o.op \in {"store", "outadd"} THEN {o.cell} ELSE {<<0, o.a>>})
+                      \cup {<<0, o.src[n]>> : n \in {m \in 1..Len(o.src) : IsShared(o.src[m])}} IN
+          /\ touched' = touched \cup {<<l, th[t].x>> : l \in locs}
           /\ sh' = IF o.op \in {"init", "add"} THEN ApplyAcc(sh, o, cg) ELSE sh
           /\ out' = CASE o.op = "store"  -> [out EXCEPT ![o.cell] = StoreVal(o, Rd)]
                       [] o.op = "outadd" -> [out EXCEPT ![o.cell] = Add(@, Leaf(o.t))]
@@ -228,7 +246,7 @@ Step(t) ==
 EndRegion ==
   /\ active /\ claimed = 1..SK.ext[P] /\ \A t \in 1..MaxT : th[t].x = 0
   /\ active' = FALSE /\ mp' = mp + 1
-  /\ UNCHANGED <<ski, nt, cg, ru, claimed, th, loc, sh, out, hist>>
+  /\ UNCHANGED <<ski, nt, cg, ru, claimed, th, loc, sh, out, touched, hist>>
 
 Next == MasterStep \/ EndRegion \/ \E t \in 1..MaxT : Claim(t) \/ Step(t)
 Spec == Init /\ [][Next]_vars
@@ -241,7 +259,17 @@ StoresInBounds == InBoundsTab[ski]
 
 \* C09: the result does not depend on the interleaving, on the claim order or on the number of threads:
 \* every terminal state holds the result of the one-thread, program-order execution
-ScheduleIndependent == Done => out = RefTab[ski][cg]
+\* (stated at every join, not only at the end: whenever no region is open, the output and the master-level
+\* accumulators are those of the sequential execution at the same program position)
+ScheduleIndependent ==
+  ~active => LET ref == RefAt[ski][cg][mp] IN
+             /\ out = ref.out
+             /\ \A a \in 1..Len(SK.accs) : IsShared(a) \/ P = 0 => sh[a] = ref.acc[a]
+
+\* the discipline that makes it so ("owner computes"): inside one region no location of shared state is
+\* accessed on behalf of two different parallel indices.  Checked because it fails after a few steps when
+\* the skeleton is wrong, where the differing results themselves appear only at the join.
+OwnerComputes == \A p1, p2 \in touched : p1[1] = p2[1] => p1[2] = p2[2]
 
 \* C09: no cell of the output still holds (or was computed from) the garbage the buffer started with,
 \* and no accumulator was read before it was initialised
@@ -249,7 +277,9 @@ NoGarbageLeft == Done => \A c \in CellTab[ski] : ~HasJunk(out[c])
 
 \* NOT part of C09 (reported for information): with fastmath the bits depend on the association chosen by
 \* the compiler, i.e. reproducibility is per build (same numba/LLVM/CPU), not across builds
-CodegenIndependent == Done => out = RefTab[ski]["seq"]
+CodegenIndependent == Done => out = RefAt[ski]["seq"][Len(MP) + 1].out
+
+CodegenReport == (Done /\ out # RefAt[ski]["seq"][Len(MP) + 1].out) => PrintT(<<"CODEGEN", SK.name, cg>>)
 
 \* schedules for replay into the real kernels
 Emit == Done => PrintT(<<"SCHED", SK.name, nt, cg, hist>>)
